@@ -135,9 +135,21 @@ func (vt *Model) csi(csi string, params [][]int) {
 func ps(params [][]int) int {
 	var ps int
 	if len(params) > 0 {
-		ps = params[0][0]
+		ps = clampParam(params[0][0])
 	}
 	return ps
+}
+
+// maxParam is the largest value a numeric parameter can take, as in xterm
+const maxParam = 65535
+
+// clampParam limits a numeric parameter to maxParam. A number with too many
+// digits overflows in the parser and can arrive negative: it is huge as well
+func clampParam(p int) int {
+	if p < 0 || p > maxParam {
+		return maxParam
+	}
+	return p
 }
 
 // Insert Blank Character (ICH) CSI Ps @
@@ -262,11 +274,11 @@ func (vt *Model) cup(pm [][]int) {
 	vt.lastCol = false
 	// An omitted or zero parameter means the default, 1
 	r, c := 1, 1
-	if len(pm) > 0 && pm[0][0] > 0 {
-		r = pm[0][0]
+	if len(pm) > 0 && pm[0][0] != 0 {
+		r = clampParam(pm[0][0])
 	}
-	if len(pm) > 1 && pm[1][0] > 0 {
-		c = pm[1][0]
+	if len(pm) > 1 && pm[1][0] != 0 {
+		c = clampParam(pm[1][0])
 	}
 	vt.cursor.row = row(r - 1)
 	vt.cursor.col = column(c - 1)
@@ -624,11 +636,11 @@ func (vt *Model) decstbm(pm [][]int) {
 	// the top margin, the last line for the bottom margin. A bottom margin
 	// beyond the screen is the last line
 	t, b := 1, vt.height()
-	if len(pm) > 0 && pm[0][0] > 0 {
-		t = pm[0][0]
+	if len(pm) > 0 && pm[0][0] != 0 {
+		t = clampParam(pm[0][0])
 	}
-	if len(pm) > 1 && pm[1][0] > 0 && pm[1][0] < b {
-		b = pm[1][0]
+	if len(pm) > 1 && pm[1][0] != 0 && clampParam(pm[1][0]) < b {
+		b = clampParam(pm[1][0])
 	}
 	top := row(t - 1)
 	bot := row(b - 1)
